@@ -48,6 +48,9 @@ type clientSet struct {
 	sent     map[*Node]map[cmdKey]*clientpb.Command
 	started  map[cmdKey]time.Duration
 	pipeCtr  uint64
+	sentAt   map[*Node]map[cmdKey]time.Duration
+	resent   map[*Node]map[cmdKey]int
+	succ     map[*Node]map[cmdKey]int // success outcomes per replica and command
 }
 
 func newServerCtx(ctx context.Context) gorums.ServerCtx {
@@ -71,7 +74,9 @@ func clientCmd(c uint32, s uint64) *clientpb.Command {
 func newClientSet(w *World) *clientSet {
 	cs := &clientSet{w: w, inFlight: map[*Node]map[cmdKey]bool{}, success: map[cmdKey]bool{}, errored: map[*Node]map[cmdKey]int{},
 		sent: map[*Node]map[cmdKey]*clientpb.Command{}, started: map[cmdKey]time.Duration{}}
+	cs.sentAt, cs.resent, cs.succ = map[*Node]map[cmdKey]time.Duration{}, map[*Node]map[cmdKey]int{}, map[*Node]map[cmdKey]int{}
 	for _, nd := range w.nodes {
+		cs.sentAt[nd], cs.resent[nd], cs.succ[nd] = map[cmdKey]time.Duration{}, map[cmdKey]int{}, map[cmdKey]int{}
 		cs.inFlight[nd] = map[cmdKey]bool{}
 		cs.errored[nd] = map[cmdKey]int{}
 		cs.sent[nd] = map[cmdKey]*clientpb.Command{}
@@ -124,6 +129,23 @@ func (cs *clientSet) drive(c uint32) {
 	}
 	key := cmdKey{c, s}
 	for _, nd := range w.nodes {
+		if !nd.crashed && nd.pausedUntil <= w.now() && cs.inFlight[nd][key] && w.plan.knob("retransmit", 0) == 1 &&
+			w.now()-cs.sentAt[nd][key] > time.Duration(w.plan.ViewDur.Ms)*time.Millisecond && cs.resent[nd][key] < 2 {
+			// no answer for a whole view duration: the client sends the command again (same client, same sequence
+			// number, a new message) while its first call is still waiting
+			cs.resent[nd][key]++
+			cs.sentAt[nd][key] = w.now()
+			cmd := clientCmd(c, s)
+			nd := nd
+			w.fault("client-retransmission")
+			go func() {
+				_, err := nd.cio.ExecCommand(newServerCtx(w.ctx), cmd)
+				cs.mu.Lock()
+				cs.outcomes = append(cs.outcomes, outcome{nd: nd, key: key, ok: err == nil})
+				cs.mu.Unlock()
+			}()
+			continue
+		}
 		if nd.crashed || nd.pausedUntil > w.now() || cs.inFlight[nd][key] {
 			continue
 		}
@@ -136,6 +158,7 @@ func (cs *clientSet) drive(c uint32) {
 		cmd := clientCmd(c, s)
 		cs.sent[nd][key] = cmd
 		cs.inFlight[nd][key] = true
+		cs.sentAt[nd][key] = w.now()
 		nd := nd
 		w.probe("c06-submit")
 		go func() {
@@ -364,6 +387,12 @@ func monC06(w *World) {
 					w.probe("c06-outcome-success")
 					if !get(o.nd).executed[o.key] {
 						w.violate("C06", "C06/early-success"+tag(o.nd), o.nd, "%s reported success for command (%d,%d) which it has not executed", o.nd, o.key.c, o.key.s)
+						return
+					}
+					// a command is executed once, so it succeeds once: later calls for it are told that it was already executed
+					w.clients.succ[o.nd][o.key]++
+					if w.clients.succ[o.nd][o.key] > 1 {
+						w.violate("C06", "C06/two-successes"+tag(o.nd), o.nd, "%s reported success for command (%d,%d) twice", o.nd, o.key.c, o.key.s)
 						return
 					}
 				}
